@@ -84,9 +84,10 @@ CHECKS = {
     ),
     "C08": dict(
         level="model_checking",
-        clauses=SUBQ | {"rows", "order", "names", "export-error", "accept"}, backends={"sqlite"},
-        phases=dict(quick=[dict(profile="wins3"), dict(profile="agg3"), dict(profile="joins3"), dict(profile="union2")],
-                    thorough=[dict(profile="wins4"), dict(profile="agg3"), dict(profile="win3"), dict(profile="joins4"), dict(profile="union3")]),
+        clauses=SUBQ | {"rows", "order", "names", "export-error", "accept", "flat-correct"}, backends={"sqlite"},
+        phases=dict(quick=[dict(kind="flat", depth=5), dict(kind="flat", depth=3, paths=True), dict(profile="wins3"), dict(profile="agg3"), dict(profile="joins3"), dict(profile="union2")],
+                    thorough=[dict(kind="flat", depth=6, srcs=[1, 6, 7], timeout=1800), dict(kind="flat", depth=4, paths=True), dict(profile="wins4"), dict(profile="agg3"), dict(profile="win3"),
+                              dict(profile="joins4"), dict(profile="union3")]),
     ),
     "C02": dict(
         level="model_checking",
